@@ -356,7 +356,10 @@ def _cause(ops, cold, seq, pos):
     nops = len(ops)
     target = ops[seq[pos]]
     for j in range(pos - 1, -1, -1):
-        shorter = seq[:j] + seq[j + 1:pos + 1]
+        if seq[j] >= nops:  # a special step may occur several times in a row: all of its occurrences are removed together
+            shorter = [q for i, q in enumerate(seq[:pos]) if q != seq[j]] + [seq[pos]]
+        else:
+            shorter = seq[:j] + seq[j + 1:pos + 1]
         r = run_sequence(ops, cold, shorter, _nested=True)
         if r is None or r[1] != target.name or not r[0].startswith("history_dependent"):
             k = seq[j]
